@@ -20,7 +20,7 @@ var props = map[string]propDef{
 		},
 	},
 	"DBG": {
-		Groups: []string{"layout", "vocab", "rating", "nomenclature", "len", "formula", "v4tables", "v4score", "parse", "effects"},
+		Groups: []string{"layout", "vocab", "rating", "nomenclature", "len", "formula", "v4tables", "v4score", "parse", "effects", "alloc"},
 		Rules:  []string{"R*"},
 		Meta:   propMeta{Level: "other", Explanation: "debug"},
 	},
